@@ -460,5 +460,32 @@ def run(ctx):
     ctx.require_count("R05.2", 4)
     ctx.require_count("R05.3", 13)
     ctx.require_count("R05.4", 5)
+    # ---- R05.9 the distributions are stored in floating-point buffers: an allocation whose dtype is taken from the moments
+    # (`dtype=a1.dtype`, `np.empty_like(a1)`) truncates every density to 0 for integer-typed moments (isotropic input given as integer
+    # zeros) and halves the precision for float32 - the stores succeed silently
+    n_alloc = 0
+    for q in (EST + "mem.mem", EST + "mem.numba_mem", M2 + "mem2_scipy_root_finder", M2 + "mem2_newton", M2 + "_mem2_newton_point",
+              M2 + "mem2_directional_distribution", EST + "estimate.estimate_directional_distribution"):
+        fq = p.functions.get(q)
+        if fq is None:
+            continue
+        pars = set(fq.params)
+        for c in [n for n in own_walk(fq.node) if isinstance(n, ast.Call)]:
+            nm = ast.unparse(c.func)
+            if nm.split(".")[-1] not in ("zeros", "empty", "ones", "full", "zeros_like", "empty_like", "ones_like", "full_like"):
+                continue
+            n_alloc += 1
+            dt = [k.value for k in c.keywords if k.arg == "dtype"]
+            from_input = any(isinstance(x, ast.Attribute) and x.attr == "dtype" and isinstance(x.value, ast.Name) and x.value.id in pars
+                             for d in dt for x in ast.walk(d))
+            like_input = nm.endswith("_like") and c.args and isinstance(c.args[0], ast.Name) and c.args[0].id in pars and not dt
+            cname = f"{fq.name}[buffer {ast.unparse(c)[:50]}]"
+            if from_input or like_input:
+                ctx.bad("R05.9", cname, "the buffer that receives the distribution takes its dtype from an input: integer-typed moments "
+                        "(a legal way to write isotropic input) truncate every stored density to 0, so the result integrates to 0",
+                        fq.loc(c), derived=ast.unparse(c)[:120], required="a floating-point allocation independent of the input dtype")
+            else:
+                ctx.ok("R05.9", cname, "allocation does not take its dtype from the moments", fq.loc(c))
+    ctx.require_count("R05.9", 3)
     ctx.require_count("R05.5", 5)
     ctx.require_count("R05.6", 5)
